@@ -543,6 +543,20 @@ def handle (e : Env) (w : Nat) (op : String) (args : List String) (got : String)
     | some r => some { model := got, spec := [if onCurve c r && r != none then got else "<point of the twist>"],
                        tags := [if mulNat c r e.n == none then "pt.inside" else "pt.outside"] }
     | none => some { model := got, spec := ["<point>"], tags := ["pt"] }
+  | "e2lc", [n, p, a, b] => do
+    -- compact ep2_mul_sim_lot: points P, 2P, …, nP, scalars a, a + b, …; specification Σ (a + i b)(i + 1) P, model = the sim_lot model on the list
+    let n ← n.toNat?
+    let p ← parsePoint d p
+    let a ← pI a
+    let b ← pI b
+    let pts := (List.range n).foldl (fun (acc : List PointX) _ => match acc.getLast? with
+      | none => [p]
+      | some q => acc ++ [add c q p]) []
+    let pks := (pts.zip (List.range n)).map fun (q, i) => (q, a + (i : Int) * b)
+    let r := pks.foldl (fun acc (pk : PointX × Int) => add c acc (mul c pk.1 pk.2)) none
+    match (mkCtx e w).bind fun mc => modelLot mc pks with
+    | some mdl => some { model := mdl, spec := [fmtPoint d r], tags := ["e2lc", if n > 10 then "model.sim_lot.bucket" else "model.sim_lot.naf", "sim_lot.n" ++ toString n] }
+    | none => some { model := got, spec := [fmtPoint d r], tags := ["e2lc", "classC.sim_lot"] }
   | _, _ =>
     -- e2l / e2d / e2la / e2da <[j]> <n> <P1> <k1> …
     if op == "e2l" || op == "e2d" || op == "e2la" || op == "e2da" then
